@@ -47,6 +47,9 @@ var guardSpecs = []guardSpec{
 	{"callReconcileTrialsGuard", "pkg/controller.v1beta1/experiment/experiment_controller.go", "ReconcileExperiment", "r.ReconcileTrials(instance, trials.Items)", recAtoms, recParams},
 	{"callDeleteTrialsGuard", "pkg/controller.v1beta1/experiment/experiment_controller.go", "ReconcileTrials", "r.deleteTrials(", recAtoms, recParams},
 	{"callCreateTrialsGuard", "pkg/controller.v1beta1/experiment/experiment_controller.go", "ReconcileTrials", "r.createTrials(", recAtoms, recParams},
+	{"callObservationGuard", "pkg/controller.v1beta1/trial/trial_controller.go", "reconcileTrial", "r.UpdateTrialStatusObservation(instance)", rtAtoms, rtParams},
+	{"requeueNoMetricsGuard", "pkg/controller.v1beta1/trial/trial_controller.go", "reconcileTrial", "ident:errMetricsNotReported", rtAtoms, rtParams},
+	{"callUpdateConditionGuard", "pkg/controller.v1beta1/trial/trial_controller.go", "reconcileTrial", "r.UpdateTrialStatusCondition(", rtAtoms, rtParams},
 	{"sugRestartGuard", "pkg/controller.v1beta1/experiment/experiment_controller_util.go", "restartSuggestion", "original.DeepCopy()",
 		map[string]string{"err != nil": "getFailed", "errors.IsNotFound(err)": "notFound", "original.IsCompleted()": "sugCompleted", "original.IsRestarting()": "sugRestarting", "original.IsSucceeded()": "sugSucceeded", "instance.IsRestarting()": "expRestarting"},
 		[]string{"getFailed", "notFound", "sugCompleted", "sugRestarting", "sugSucceeded", "expRestarting"}},
@@ -72,6 +75,14 @@ var recAtoms = map[string]string{
 	"instance.Spec.MaxTrialCount == nil": "(!maxSet)", "requiredActiveCount > parallelCount": "requiredAbovePar",
 }
 var recParams = []string{"callFailed", "trialsNonEmpty", "completed", "activeAbovePar", "activeBelowPar", "deletePositive", "addPositive", "addNegative", "maxSet", "requiredAbovePar"}
+
+var rtAtoms = map[string]string{
+	"err != nil": "callFailed", "deployedJob != nil": "jobPresent", "instance.IsCompleted()": "completed", "instance.IsEarlyStopped()": "earlyStopped",
+	"jobStatus == nil": "noJobStatus", "jobStatus.Condition == trialutil.JobSucceeded": "jobSucceeded",
+	"instance.Status.Observation == nil":                                              "observationNil",
+	"instance.Spec.MetricsCollector.Collector.Kind != commonapiv1beta1.PushCollector": "(!push)",
+}
+var rtParams = []string{"callFailed", "jobPresent", "completed", "earlyStopped", "noJobStatus", "jobSucceeded", "observationNil", "push"}
 
 var verdictAtoms = map[string]string{
 	"jobStatus.Condition == trialutil.JobSucceeded": "jobSucceeded", "jobStatus.Condition == trialutil.JobFailed": "jobFailed",
@@ -127,8 +138,13 @@ func singleBinds(body *ast.BlockStmt) map[string]ast.Expr {
 
 func (g *guardWalker) containsCall(n ast.Node) bool {
 	hit := false
+	ident := strings.TrimPrefix(g.spec.call, "ident:")
 	ast.Inspect(n, func(m ast.Node) bool {
-		if c, ok := m.(*ast.CallExpr); ok && strings.Contains(nodeSrc(g.fset, c), g.spec.call) {
+		if ident != g.spec.call {
+			if id, ok := m.(*ast.Ident); ok && id.Name == ident {
+				hit = true
+			}
+		} else if c, ok := m.(*ast.CallExpr); ok && strings.Contains(nodeSrc(g.fset, c), g.spec.call) {
 			hit = true
 		}
 		return !hit
